@@ -7,7 +7,7 @@ import sympy as sp
 
 from engine import AnalysisError, symx
 from engine.srcmodel import walk_shallow, norm
-from engine.util import call_name, fstring_template
+from engine.util import normalise, call_name, fstring_template
 from . import solvers as S
 from . import helpers as H
 
@@ -23,7 +23,7 @@ EXPLANATION = (
     "index base is added exactly once by _process_idx.  R5 helper definitions stored under the same registry key agree across "
     "backends after normalisation (python-syntax helpers: wsum, interp_rows, sigmoid) and each def string agrees with its numpy twin.  "
     "R6 every python-target hook that renders an indexed assignment (add_var_update, _format_assignment, emit_local_array_assign) emits an "
-    "assignment (in place or functional .at[].set), never an accumulation.  NOT decided: numerical agreement of library functions, float32/float64 effects, Fortran declarations/line wrapping, "
+    "assignment (in place or functional .at[].set), never an accumulation.  R8 a process-global precision switch (jax_enable_x64) is only ever turned on by a backend (constant True), never set to a per-instance value.  R1 also reads the index-range guards of the python interpolation helper as integer constraints (interpolate only inside the grid, fall back to a sample only when the bracket leaves it).  NOT decided: numerical agreement of library functions, float32/float64 effects, Fortran declarations/line wrapping, "
     "diffrax/scipy tolerances, Julia/Matlab helper bodies (foreign syntax; listed as information)."
 )
 RULE_TEXT = ("instances = registry entries and solver overrides resolved from the source; non-trivial = decided by algebraic "
@@ -417,6 +417,60 @@ def r_str_membership(ctx, rid):
     membership_in_string(ctx, rid)
 
 
+GLOBAL_SWITCHES = {
+    # call name -> (position of the value argument, what it switches)
+    "set_default_dtype": (0, "torch's process-wide default dtype"),
+    "set_default_tensor_type": (0, "torch's process-wide default tensor type"),
+}
+
+
+def r8_global_precision_switches(ctx, rid):
+    """Process-global numeric switches touched by a backend (`jax.config.update("jax_enable_x64", v)`, torch default dtype) affect
+    every function compiled earlier in the process, so a backend instance may only ever turn 64-bit mode ON (a constant True,
+    typically under a test of its own precision argument) - never set it to a per-instance value, which would switch it off again
+    for float64 models that are still in use and make JAX disagree with the other backends."""
+    n = 0
+    for cls in S.backend_classes(ctx):
+        for f in cls.methods.values():
+            for c in walk_shallow(f.node):
+                if not isinstance(c, ast.Call):
+                    continue
+                value = what = None
+                if call_name(c) == "update" and c.args and isinstance(c.args[0], ast.Constant) and isinstance(c.args[0].value, str) \
+                        and c.args[0].value.startswith("jax_enable_x64"):
+                    value = c.args[1] if len(c.args) > 1 else next((k.value for k in c.keywords if k.arg in ("val", "value")), None)
+                    what = "JAX's process-wide 64-bit mode"
+                elif call_name(c) in GLOBAL_SWITCHES and c.args:
+                    value, what = c.args[GLOBAL_SWITCHES[call_name(c)][0]], GLOBAL_SWITCHES[call_name(c)][1]
+                if what is None:
+                    continue
+                n += 1
+                label = f"{cls.name}.{f.name}: global switch {call_name(c)}"
+                if what.startswith("JAX"):
+                    v = normalise(ctx, f, value) if value is not None else None
+                    if isinstance(v, ast.Constant) and v.value is True:
+                        ctx.ok(rid, f, c, "64-bit mode is only ever switched on (constant True)", label=label)
+                    elif isinstance(v, ast.Constant):
+                        ctx.violation(rid, f, c, f"{what} is set to the constant {v.value!r}: float64 models compiled earlier in the process silently "
+                                                 f"compute in float32 afterwards", label=label)
+                    else:
+                        ctx.violation(rid, f, c, f"{what} is set to a per-instance value `{ast.unparse(value)[:60]}`: creating a float32 backend "
+                                                 f"switches it off for float64 models that are still in use (their results then differ from the "
+                                                 f"NumPy/Torch backends)", label=label)
+                else:
+                    ctx.info(rid, f, c, f"sets {what} (listed; the value is a dtype, not a monotone switch)")
+    for m in ctx.repo.modules.values():
+        for st in m.tree.body:
+            for c in ast.walk(st) if isinstance(st, (ast.Expr, ast.Assign)) else []:
+                if isinstance(c, ast.Call) and call_name(c) == "update" and c.args and isinstance(c.args[0], ast.Constant) \
+                        and isinstance(c.args[0].value, str) and c.args[0].value.startswith("jax_enable_x64"):
+                    n += 1
+                    ctx.info(rid, None, None, "module-level 64-bit switch at import time", construct=f"{m.rel}::jax_enable_x64 at import",
+                             loc=f"{m.rel}:{c.lineno}")
+    if n < 1:
+        raise AnalysisError(f"{rid}: no use of a process-global precision switch found (JaxBackend.__init__ sets jax_enable_x64 on the pinned tree)")
+
+
 RULES = [
     ("C02-R1", r1_interp, 3),
     ("C02-R2", r2_solver_siblings, 9),
@@ -425,4 +479,5 @@ RULES = [
     ("C02-R5", r5_helper_agreement, 10),
     ("C02-R6", r6_assignment_hooks_assign, 3),
     ("C02-R7", r_str_membership, 1),
+    ("C02-R8", r8_global_precision_switches, 1),
 ]
